@@ -49,9 +49,14 @@ def run_check(prop, tier, include_root=None, write=True, quiet=False):
             from yk import mutants
             S.mutants = mutants.run_corpus(prop, run_check)
     except AnalysisBroken as e:
-        if not quiet:
-            print('ANALYSIS-BROKEN property=%s: %s' % (prop, e))
-        return 2, [], [], S
+        # a rule that cannot be evaluated stops the run; violations other rules have already established on this tree are
+        # reported (exit 1) - like a failed instance minimum, the broken rule is then a note, not the verdict
+        if any(not o.ok for o in S.obs):
+            S.broken.append('a later rule could not be evaluated: %s' % e)
+        else:
+            if not quiet:
+                print('ANALYSIS-BROKEN property=%s: %s' % (prop, e))
+            return 2, [], [], S
     except Exception:
         if not quiet:
             print('ANALYSIS-BROKEN property=%s: internal error\n%s' % (prop, traceback.format_exc()))
